@@ -104,12 +104,15 @@ class BasePoller(BaseComponent):
 
     def addReader(self, source, fd):
         channel = getattr(source, 'channel', '*')
-        self._read.append(fd)
+        # (registered or not: adding twice registers once)
+        if fd not in self._read:
+            self._read.append(fd)
         self._targets[fd] = channel
 
     def addWriter(self, source, fd):
         channel = getattr(source, 'channel', '*')
-        self._write.append(fd)
+        if fd not in self._write:
+            self._write.append(fd)
         self._targets[fd] = channel
 
     def removeReader(self, fd):
